@@ -45,6 +45,8 @@ const (
 	EOperand     // root AND/OR: Exprs[Pos] = New (same operand count)
 	ELeafValue   // root is a leaf: Value = Val
 	EGroupByTail // q.GroupBy = append(q.GroupBy[:0], rotated...)   (same length)
+	EGroupByNone // q.GroupBy = nil (Pos even) or q.GroupBy[:0] (Pos odd): no group-by any more
+	EInnerLeaf   // the first comparison found below the root gets Value = Val (operand counts unchanged)
 )
 
 type Edit struct {
@@ -71,6 +73,10 @@ func (c *Case) Summary() string {
 			fmt.Fprintf(&b, " before#%d:leaf.Value=%+q", i, e.Val)
 		case EGroupByTail:
 			fmt.Fprintf(&b, " before#%d:GroupBy-rotated-in-place", i)
+		case EGroupByNone:
+			fmt.Fprintf(&b, " before#%d:GroupBy-cleared(nil=%v)", i, e.Pos%2 == 0)
+		case EInnerLeaf:
+			fmt.Fprintf(&b, " before#%d:first-inner-leaf.Value=%+q", i, e.Val)
 		}
 	}
 	return b.String()
@@ -148,6 +154,58 @@ func oracle(c *Case) error {
 				if curExpr.Op == model.OpEq {
 					curExpr.Val = e.Val
 					q.Expr.(*updog.ExprEqual).Value = e.Val
+				}
+			case EGroupByNone:
+				if e.Pos%2 == 0 {
+					q.GroupBy = nil
+				} else {
+					q.GroupBy = q.GroupBy[:0]
+				}
+				curGB = nil
+			case EInnerLeaf:
+				if curExpr.Op != model.OpEq {
+					var setM func(x model.Expr) (model.Expr, bool)
+					setM = func(x model.Expr) (model.Expr, bool) {
+						if x.Op == model.OpEq {
+							x.Val = e.Val
+							return x, true
+						}
+						subs := append([]model.Expr(nil), x.Subs...)
+						for i := range subs {
+							if n, ok := setM(subs[i]); ok {
+								subs[i] = n
+								return model.Expr{Op: x.Op, Col: x.Col, Val: x.Val, Subs: subs}, true
+							}
+						}
+						return x, false
+					}
+					var setU func(x updog.Expression) bool
+					setU = func(x updog.Expression) bool {
+						switch v := x.(type) {
+						case *updog.ExprEqual:
+							v.Value = e.Val
+							return true
+						case *updog.ExprNot:
+							return setU(v.Expr)
+						case *updog.ExprAnd:
+							for _, s := range v.Exprs {
+								if setU(s) {
+									return true
+								}
+							}
+						case *updog.ExprOr:
+							for _, s := range v.Exprs {
+								if setU(s) {
+									return true
+								}
+							}
+						}
+						return false
+					}
+					if n, ok := setM(curExpr); ok {
+						curExpr = n
+						setU(q.Expr)
+					}
 				}
 			}
 			snapExpr = fix.ToUpdog(curExpr)
@@ -252,7 +310,7 @@ func drawCase(t *rapid.T) *Case {
 		c.Open = append(c.Open, oc)
 	}
 	d0 := model.NewData(c.Data[0].Rows())
-	pool := gen.NewLeafPool(d0)
+	pool := gen.NewLeafPool(d0).AllowEmptyName()
 	c.Expr = pool.Expr(t, gen.ExprOpts{MaxDepth: 4})
 	c.GroupBy = pool.GroupBy(t, 6, 0)
 	k := rapid.IntRange(2, 6).Draw(t, "nexec")
@@ -271,7 +329,7 @@ func drawCase(t *rapid.T) *Case {
 			if rapid.Bool().Draw(t, "edit?") {
 				continue
 			}
-			e := Edit{Kind: rapid.IntRange(EGroupBy, EGroupByTail).Draw(t, "editkind"), Pos: rapid.IntRange(0, 7).Draw(t, "editpos")}
+			e := Edit{Kind: rapid.IntRange(EGroupBy, EInnerLeaf).Draw(t, "editkind"), Pos: rapid.IntRange(0, 7).Draw(t, "editpos")}
 			if len(pool.Cols) > 0 {
 				e.Col = rapid.SampledFrom(pool.Cols).Draw(t, "editcol")
 			} else {
